@@ -960,7 +960,18 @@ def _acos(I, x):
 
 
 def _log(I, x, *base):
-    return I.ctx.uninterp("log", x)
+    if base:
+        raise Unsupported("log with base")
+    if I.ctx.branch(sym.num_cmp("<=", x, 0), None):
+        raise PyRaise("ValueError", "math domain error")
+    l = I.ctx.uninterp("log", x)
+    zx = sym.zreal(x)
+    key = ("log", zx.get_id())
+    if key not in I.ctx.trig_cache:
+        I.ctx.trig_cache[key] = l
+        I.ctx.assume((l == 0) == (zx == 1))
+        I.ctx.assume((l < 0) == (zx < 1))
+    return l
 
 
 def _np_array(I, x, **kw):
